@@ -77,3 +77,13 @@ def C17(t0):
         bounds=['ground formulas: no input space, no bound'],
         trusted=[T_RUSTC + ' (constant bodies are evaluated by the interpreter)', 'the three primes q, r, p of BLS12-377 and the small generators 22, 5, 15 are taken from the specification', 'r prime (for order statements)'],
         assumptions=['arkworks MontFp!/BigInt conversions modelled by their documented meaning'])
+
+def C08(t0):
+    from . import curve
+    _warm()
+    obs = par.run_groups([(f'{b} equality/hash/identity coherence', curve.check_equality_coherence, (b,)) for b in ('ark', 'min')])
+    return finish('C08', obs, t0, level='proof',
+        functions=['PartialEq for Element/AffinePoint (both builds)', 'Hash for Element/AffinePoint', 'Element::is_identity', 'Zero::is_zero', 'AffineRepr::is_zero', '== IDENTITY, == default()'],
+        bounds=['all coordinates symbolic; representatives: rescaling by lam != 0, coset shift (-X,-Y,Z,T)'],
+        trusted=[T_RUSTC, T_ARK, 'contract S and the scaling lemma (as in C03)', '"equal iff same encoding" additionally needs the Decaf injectivity theorem (not decided); decided here: == is exactly X1*Y2 == Y1*X2, and hashing sees only encoding bytes which C03 shows representation-independent'],
+        assumptions=['arkworks inner-point Hash/PartialEq/is_zero modelled by their documented behaviour (affine normalisation; (0,1) test)'])
